@@ -137,14 +137,14 @@ NewViol == LET e == Ev IN
 
 \* ------------------------------------------------------------ observer steps
 MKind(api) == CASE api = "NewV2Session" -> "open" [] api = "NewSession" -> "open" [] api = "Close" -> "close"
-                [] api = "ConnClose" -> "connclose" [] OTHER -> "command"
+                [] api \in {"ConnClose", "ExtraClose"} -> "connclose" [] api = "DialV2" -> "dial" [] OTHER -> "command"
 MName(api) == IF api = "Close" THEN "Close Session" ELSE "Raw"
 Step ==
   LET e == Ev IN
   CASE e.ev = "reset" -> /\ info' = (IF Has(e, "info") THEN e.info ELSE NoRec) /\ phase' = "idle" /\ exp' = NoRec /\ args' = NoRec
                          /\ lastTx' = [ptype |-> -1, raw |-> <<>>] /\ seqN' = 0 /\ ivs' = {} /\ sessOK' = FALSE /\ lastRaw' = <<>>
                          /\ prevM' = NoM /\ mcall' = NoCall
-    [] e.ev = "call" -> /\ phase' = (IF e.api \in {"NewV2Session", "NewSession"} THEN "open" ELSE IF e.api = "ConnClose" THEN "idle" ELSE "cmd")
+    [] e.ev = "call" -> /\ phase' = (IF e.api \in {"NewV2Session", "NewSession"} THEN "open" ELSE IF e.api \in {"ConnClose", "DialV2", "ExtraClose"} THEN "idle" ELSE "cmd")
                         /\ exp' = (IF Has(e, "exp") THEN e.exp ELSE NoRec) /\ args' = (IF Has(e, "args") THEN e.args ELSE NoRec)
                         /\ lastTx' = [ptype |-> -1, raw |-> <<>>]
                         /\ mcall' = [kind |-> MKind(e.api), name |-> MName(e.api), err |-> FALSE, ntx |-> 0, codes |-> <<>>]
@@ -161,6 +161,7 @@ Step ==
                        \* failures count SendCommand errors; Close() also turns a non-normal completion code into an
                        \* error (ValidateResponse), which is not a command failure (v2sessionless.go: SendCommand comment)
                        /\ mcall' = (IF ~Has(e, "err") THEN mcall
+                                    ELSE IF mcall.kind = "dial" THEN [mcall EXCEPT !.kind = IF e.err THEN "dialfail" ELSE "dial"]
                                     ELSE IF mcall.kind = "close" /\ mcall.codes # <<>> /\ mcall.codes[Len(mcall.codes)] \notin {192, 195}
                                          THEN [mcall EXCEPT !.err = FALSE]
                                          ELSE [mcall EXCEPT !.err = e.err])
